@@ -4,7 +4,11 @@ package main
 // the v2 bodies offer) crossed with a fixed list of hostile strings and n seeded random compositions of SQL / bun / JSON
 // metacharacters; every case carries the harmless twin of its string.
 
-import "strings"
+import (
+	"os"
+	"sort"
+	"strings"
+)
 
 var sqtOps = []string{"$match", "$lt", "$lte", "$gt", "$gte"}
 
@@ -198,6 +202,287 @@ func genSQLText(r *rng, n int, tier string, emit func(J)) {
 			}
 			c["expand"] = ex
 			emit(c)
+		}
+	}
+	// streams of their own (the cases above stay what they were): hostile KEYS, and hostile values through every key the code of
+	// this run accepts although the catalogue does not list it
+	r2 := &rng{s: r.s ^ 0x2545f4914f6cdd1d}
+	genSQLKeys(r2, tier, rows, emit)
+	genSQLDiscovered(r2, n, tier, rows, emit)
+}
+
+// ---------------------------------------------------------------- hostile keys
+
+// names of the columns of the tables of 0-init-schema.sql: checks/c20.py reads them off the schema of this run and hands them
+// over in VERIF_SQL_COLUMNS ("table.column,…"); the list below is only the fallback when the harness is run by hand
+func sqtSchemaColumns() (tables []string, columns []string) {
+	spec := os.Getenv("VERIF_SQL_COLUMNS")
+	if spec == "" {
+		spec = "transactions.seq,transactions.ledger,transactions.id,transactions.timestamp,transactions.reference,transactions.postings," +
+			"transactions.metadata,accounts.address,accounts.insertion_date,moves.asset,moves.amount,logs.date,logs.idempotency_key"
+	}
+	st, sc := map[string]bool{}, map[string]bool{}
+	for _, tc := range strings.Split(spec, ",") {
+		k := strings.IndexByte(tc, '.')
+		if k <= 0 {
+			continue
+		}
+		if !st[tc[:k]] {
+			st[tc[:k]] = true
+			tables = append(tables, tc[:k])
+		}
+		if !sc[tc[k+1:]] {
+			sc[tc[k+1:]] = true
+			columns = append(columns, tc[k+1:])
+		}
+	}
+	sort.Strings(tables)
+	sort.Strings(columns)
+	return
+}
+
+// words a filter key could plausibly be, beyond the columns
+var sqtKeyWords = []string{"asset", "amount", "id", "seq", "ledger", "postings", "insertion_date", "account", "source", "destination", "address",
+	"reference", "timestamp", "date", "balance", "metadata", "type", "hash", "volumes", "input", "output", "reverted", "txid"}
+
+// the keys the catalogue lists for an endpoint (what the unchanged code accepts)
+func sqtKnownKeys(rows []sqtRow, api, ep string) []string {
+	seen := map[string]bool{}
+	var out []string
+	for _, row := range rows {
+		if row.api != api || row.ep != ep || row.pos != "value" {
+			continue
+		}
+		k := row.key
+		if row.qkey != "" {
+			k = row.qkey
+		}
+		if !seen[k] {
+			seen[k] = true
+			out = append(out, k)
+		}
+	}
+	return out
+}
+
+// text in front of / behind something an accepting code path could key on.  Every fragment carries the marker.
+var sqtKeyPrefixes = []string{"zq7 or true or ", "zq7' or '1'='1' or ", "1=1) or (zq7=zq7 or ", "exists (select zq7 from pg_sleep(1)) or ",
+	"zq7; drop table accounts; -- ", "zq7 is null or ", "zq7/**/or/**/true/**/or/**/", "zq7\" = \"\" or ", "é zq7 ?0 or "}
+var sqtKeySuffixes = []string{" or zq7 is not null", "' or zq7 --", " = zq7 or true --", "; select zq7", ") or (zq7 = zq7", " ?0 zq7"}
+
+type sqtHostileKey struct{ hostile, harmless string }
+
+func sqtAs(s string) string { return strings.Repeat("a", len([]rune(s))) }
+
+// sqtHostileKeys: for one base (a known key, a column, a qualified column, a word): the fragment in front of it, glued to it with a
+// dot, behind it, inside its brackets, around it with blanks.  The harmless twin replaces every character of the FRAGMENT by 'a' and
+// keeps the base: an accepting code path accepts both, and only the hostile one brings SQL.
+func sqtHostileKeys(r *rng, base string, all bool) []sqtHostileKey {
+	var out []sqtHostileKey
+	add := func(h, t string) { out = append(out, sqtHostileKey{h, t}) }
+	pick := func(xs []string) []string {
+		if all {
+			return xs
+		}
+		return []string{xs[r.n(len(xs))]}
+	}
+	for _, f := range pick(sqtKeyPrefixes) {
+		add(f+base, sqtAs(f)+base)
+	}
+	for _, f := range pick(sqtKeyPrefixes) {
+		g := strings.TrimRight(f, " ")
+		add(g+"."+base, sqtAs(g)+"."+base)
+	}
+	for _, f := range pick(sqtKeySuffixes) {
+		add(base+f, base+sqtAs(f))
+	}
+	for _, f := range pick(sqtKeyPrefixes) {
+		add(" "+base+" "+f, " "+base+" "+sqtAs(f))
+	}
+	if k := strings.IndexByte(base, '['); k >= 0 && strings.HasSuffix(base, "]") { // metadata[k], balance[USD]: text behind the bracket
+		for _, f := range pick(sqtKeySuffixes) {
+			add(base+f, base+sqtAs(f))
+		}
+	} else {
+		for _, f := range pick(sqtKeySuffixes) {
+			add(base+"["+f+"]", base+"["+sqtAs(f)+"]")
+		}
+	}
+	return out
+}
+
+func genSQLKeys(r *rng, tier string, rows []sqtRow, emit func(J)) {
+	tables, columns := sqtSchemaColumns()
+	all := tier == "thorough"
+	for _, row := range rows {
+		if row.pos != "key" {
+			continue
+		}
+		known := sqtKnownKeys(rows, row.api, row.ep)
+		if len(known) == 0 { // v1 parameter rows: the names of the endpoint's parameters
+			known = sqtKnownKeys(rows, "v2", row.ep)
+		}
+		seen := map[string]bool{}
+		var bases []string
+		addBase := func(b string) {
+			if !seen[b] {
+				seen[b] = true
+				bases = append(bases, b)
+			}
+		}
+		for _, k := range known {
+			addBase(k)
+			if !strings.ContainsAny(k, "[") {
+				addBase("t." + k)
+				for _, t := range tables {
+					addBase(t + "." + k)
+				}
+			}
+		}
+		for _, c := range columns {
+			addBase(c)
+		}
+		for _, w := range sqtKeyWords {
+			addBase(w)
+		}
+		for _, b := range []string{"]", "[x]", "metadata[x]", "balance[x]", "metadata", "x.y"} {
+			addBase(b)
+		}
+		for _, b := range bases {
+			for _, hk := range sqtHostileKeys(r, b, all) {
+				c := J{"api": row.api, "ep": row.ep, "key": row.key, "op": row.op, "pos": "key", "vtype": row.vtype, "dom": "key",
+					"hostile": hk.hostile, "harmless": hk.harmless, "wrap": "none", "pit": r.pick([]string{"", "", "1", "2"}), "expand": []any{},
+					"family": "hostile-key", "base": b}
+				if row.qkey != "" {
+					c["qkey"] = row.qkey
+				}
+				if row.api == "v2" || row.key == "query" {
+					c["wrap"] = r.pick([]string{"none", "none", "and-before", "and-after", "or"})
+					c["sib"] = r.pick([]string{"meta", "bound"})
+				}
+				emit(c)
+			}
+		}
+	}
+}
+
+// ---------------------------------------------------------------- keys the code accepts today
+
+// genSQLDiscovered asks the code of THIS run which keys it accepts: every candidate (columns, qualified columns, words) is sent
+// with harmless values to every endpoint that takes a JSON expression; a key that is accepted and that the catalogue does not list
+// gets the whole set of hostile values.  On the unchanged code no such key exists (the rows then cost nothing).
+func genSQLDiscovered(r *rng, n int, tier string, rows []sqtRow, emit func(J)) {
+	// the hostile-value set is run through at most this many discovered (key, operator) pairs per endpoint; every discovered key is
+	// still REPORTED (one case with a plain value), so that the differential names it
+	budget := 6
+	if tier == "thorough" {
+		budget = 60
+	}
+	tables, columns := sqtSchemaColumns()
+	var cands []string
+	seen := map[string]bool{}
+	addC := func(k string) {
+		if !seen[k] {
+			seen[k] = true
+			cands = append(cands, k)
+		}
+	}
+	for _, c := range columns {
+		addC(c)
+	}
+	for _, w := range sqtKeyWords {
+		addC(w)
+		addC(w + "[USD]")
+		addC(w + "[k]")
+	}
+	type target struct{ api, ep, wrapKey string }
+	var targets []target
+	tseen := map[string]bool{}
+	for _, row := range rows {
+		if row.pos != "key" || !(row.api == "v2" || row.key == "query") {
+			continue
+		}
+		t := target{row.api, row.ep, ""}
+		if row.key == "query" {
+			t.wrapKey = "query"
+		}
+		if id := t.api + t.ep + t.wrapKey; !tseen[id] {
+			tseen[id] = true
+			targets = append(targets, t)
+		}
+	}
+	probes := []struct{ s, vtype string }{{"aaa", "string"}, {"a:a", "string"}, {"2023-01-01T00:00:00Z", "string"}, {"100", "string"}, {"100", "number"}}
+	for _, t := range targets {
+		// a known key with brackets (metadata[k], balance[USD]) stands for every content of the brackets: those are the rows
+		// "metakey" / "asset" of the catalogue
+		shape := func(k string) string {
+			if i := strings.IndexByte(k, '['); i >= 0 && strings.HasSuffix(k, "]") {
+				return k[:i] + "[]"
+			}
+			return k
+		}
+		known := map[string]bool{}
+		ks := sqtKnownKeys(rows, t.api, t.ep)
+		for _, k := range ks {
+			known[shape(k)] = true
+		}
+		cs := append([]string{}, cands...)
+		for _, k := range ks {
+			if strings.ContainsAny(k, "[") {
+				continue
+			}
+			cs = append(cs, "t."+k)
+			for _, tb := range tables {
+				cs = append(cs, tb+"."+k)
+			}
+		}
+		found := 0
+		for _, k := range cs {
+			if known[shape(k)] {
+				continue
+			}
+			for _, op := range []string{"$match", "$lt"} {
+				accepted := false
+				for _, pb := range probes {
+					in := J{"api": t.api, "ep": t.ep, "key": k, "op": op, "pos": "value", "vtype": pb.vtype, "wrap": "none", "pit": ""}
+					if t.wrapKey != "" {
+						in["key"], in["qkey"] = t.wrapKey, k
+					}
+					o := safeExec(func(J) J { return sqtRun(in, pb.s) }, in)
+					st, _ := o["status"].(int)
+					sq, _ := o["sql"].([]any)
+					if st > 0 && st < 400 && len(sq) > 0 {
+						accepted = true
+						break
+					}
+				}
+				if !accepted {
+					continue
+				}
+				found++
+				for _, vtype := range []string{"string", "array", "object"} {
+					strs := append([]string{}, sqtFixed...)
+					for i := 0; i < n; i++ {
+						strs = append(strs, sqtRandom(r))
+					}
+					if found > budget {
+						if vtype != "string" {
+							continue
+						}
+						strs = []string{"zq7' or '1'='1"}
+					}
+					for _, s := range strs {
+						c := J{"api": t.api, "ep": t.ep, "key": k, "op": op, "pos": "value", "vtype": vtype, "dom": "", "hostile": s,
+							"harmless": sqtHarmless(s, ""), "wrap": r.pick([]string{"none", "none", "and-before", "and-after", "or"}),
+							"sib": r.pick([]string{"meta", "bound"}), "pit": r.pick([]string{"", "", "1", "2"}), "expand": []any{},
+							"family": "discovered-key", "discovered": true}
+						if t.wrapKey != "" {
+							c["key"], c["qkey"] = t.wrapKey, k
+						}
+						emit(c)
+					}
+				}
+			}
 		}
 	}
 }
